@@ -129,7 +129,7 @@ def run(tier, seed):
     add_proof_failures(rep, po)
     # C01b / C01c: the per-enumerator normal form is the same decoder (expand_decode); what `progeq = same` means for the translated
     # Rust reader (reader_decodes_as_spec, reader_reads_canonical)
-    for mod_ in ("WowVerif.Thm.C01b", "WowVerif.Thm.C01c", "WowVerif.Thm.C01d"):
+    for mod_ in ("WowVerif.Thm.C01b", "WowVerif.Thm.C01c", "WowVerif.Thm.C01d", "WowVerif.Thm.C07b"):
         po_b = proof_obligations(mod_)
         add_proof_failures(rep, po_b)
         po = dict(po, theorems=dict(po["theorems"], **po_b["theorems"]), obligations=po["obligations"] + po_b["obligations"], discharged=po["discharged"] + po_b["discharged"])
